@@ -161,7 +161,50 @@ func vH_C05_packet_one_datagram() {
 var vDupSeen, vDupAnswer bool
 
 func vStubIsDuplicateRecord(c *replay.ReplayCache, data []byte, tag string) bool {
+	first := !vDupSeen
 	vDupSeen = true
 	vDupAnswer = vNondetBool("replay.dup")
+	if first {
+		vDupFirst = vDupAnswer
+	}
 	return vDupAnswer
 }
+
+// ---- H6.2 (TCP): a replayed first segment draws no reply and opens nothing ----
+//
+// The first read of a server connection is reported by the replay cache (a
+// byte-exact copy of traffic already accepted).  Whether or not it still
+// decrypts - a genuine copy does: discovery succeeds, metadata arbitrary - the
+// event loop ends with a REPLAY error, not a byte is written, no session is
+// created, nothing reaches the application, no source-user association is
+// recorded (no pending authentication survives).
+func vStubServerInitOracle(t *StreamUnderlay, encryptedMeta []byte) ([]byte, serveruser.Authentication, error) {
+	if !vDiscoveryOK {
+		return nil, serveruser.Authentication{}, vTimeoutErr{}
+	}
+	t.recv = &vOracleCipher{user: "alice"}
+	m := vNondetBytes("oracle.meta", 32)
+	vAssume(m[0] != 10 && m[0] != 11)
+	return m, serveruser.VNewAuthentication("alice"), nil
+}
+
+func vH_C06_stream_replay() {
+	l := vNondetInt("len")
+	vAssume(l >= 72 && l <= 200)
+	conn := &vFakeConn{in: make([]byte, l)}
+	server := &StreamUnderlay{baseUnderlay: *newBaseUnderlay(false, 1400, nil), conn: conn, sessionCleanTicker: time.NewTicker(sessionCleanInterval)}
+	vDiscoveryOK = vNondetBool("discovery.ok")
+	vDupSeen, vDupAnswer = false, false
+	vDupFirstOnly = true
+	err := server.RunEventLoop(context.Background())
+	vDupFirstOnly = false
+	vAssume(vDupFirst) // the first read IS reported as a replay
+	vAssert(err != nil, "the event loop ends")
+	vAssert(stderror.GetErrorType(err) == stderror.REPLAY_ERROR, "a replayed first segment ends the connection with a replay error, whether or not it decrypts")
+	vAssert(conn.writes == 0 && len(conn.out) == 0, "not a single byte is sent in reply to a replay")
+	vAssert(server.SessionCount() == 0 && len(server.readySessions) == 0, "a replay opens no session and reaches no application")
+	vAssert(server.send == nil, "no send cipher is derived for a replayed connection")
+	vAssert(conn.closed, "the connection is closed")
+}
+
+var vDupFirstOnly, vDupFirst bool
